@@ -31,7 +31,7 @@ struct C04 : Property
 	{
 		return {"reset.with_pending_member_name", "reset.inside_nested_containers", "reset.inside_string", "reset.inside_number", "reset.after_error", "reset.after_success",
 		        "free.with_partial_state", "error.depth_at_limit_1", "error.size_bad_length", "feed.c_string_mode", "feed.zero_length", "printbuf_growth.long_token",
-		        "mirror.compared_calls", "outcome.success", "outcome.continue"};
+		        "mirror.compared_calls", "outcome.success", "outcome.continue", "fault.alloc_inside_parse", "outcome.memory_error_then_reset"};
 	}
 	std::map<std::string, int64_t> cfg_defaults() const override { return {}; }
 
@@ -88,9 +88,11 @@ struct C04 : Property
 		return s;
 	}
 
-	Plan generate(Rng &r, Tier, uint64_t) override
+	Plan generate(Rng &r, Tier, uint64_t index) override
 	{
 		Plan p;
+		bool faulted = (index % 4) == 3; // a quarter of the sessions also meet allocation failures inside parse calls
+		p.cfg["faulted"] = faulted;
 		int nstreams = (int)r.range(1, 6);
 		auto op0 = [&](const char *k, std::vector<int64_t> a = {}) {
 			Op o;
@@ -116,6 +118,13 @@ struct C04 : Property
 				Op o;
 				o.kind = r.chance(1, 8) ? "feedz" : "feed";
 				o.data = bytes.substr(pos, len);
+				if (faulted && r.chance(1, 3))
+				{
+					Fault f;
+					f.kind = "alloc";
+					f.a = {(int64_t)r.below(8)};
+					o.faults.push_back(f);
+				}
 				p.ops.push_back(o);
 				pos += len;
 				if (r.chance(1, 20))
@@ -215,7 +224,7 @@ struct C04 : Property
 			ctx.fail("C04:reset-keeps-error", "json_tokener_get_error after reset = %d", (int)json_tokener_get_error(s.tok));
 	}
 
-	void check_outcome(RunCtx &ctx, const ParseResult &r, long len, const char *what)
+	void check_outcome(RunCtx &ctx, const ParseResult &r, long len, const char *what, bool fault_fired = false)
 	{
 		if (r.err < 0 || r.err > (int)json_tokener_error_memory)
 			ctx.fail("C04:undefined-error-code", "%s: error code %d is not an enumerator", what, r.err);
@@ -223,7 +232,7 @@ struct C04 : Property
 			ctx.fail("C04:value-with-error", "%s: a value was returned together with status '%s'", what, json_tokener_error_desc((enum json_tokener_error)r.err));
 		if (len >= 0 && r.end > (size_t)len)
 			ctx.fail("C04:end-beyond-length", "%s: parse end %zu exceeds the %ld bytes given", what, r.end, len);
-		if (r.err == json_tokener_error_memory)
+		if (r.err == json_tokener_error_memory && !fault_fired)
 			ctx.fail("C04:spurious-memory-error", "%s: out-of-memory status without an injected allocation failure", what);
 	}
 
@@ -277,7 +286,7 @@ struct C04 : Property
 				drop_mirror(s);
 				ctx.log("op %zu free", oi);
 				if (!g_alloc.live.empty())
-					ctx.fail("C04:leak@" + g_alloc.site_of(g_alloc.live.begin()->second), "after json_tokener_free %zu allocation(s) made by the session remain:%s",
+					ctx.fail("C04:leak@" + g_alloc.first_live_site(), "after json_tokener_free %zu allocation(s) made by the session remain:%s",
 					         g_alloc.live.size(), g_alloc.describe_live().c_str());
 			}
 			else if (op.kind == "feed" || op.kind == "feedz" || op.kind == "badlen")
@@ -329,9 +338,19 @@ struct C04 : Property
 					ctx.probe("feed.zero_length");
 				if (bytes.size() > 64)
 					ctx.probe("printbuf_growth.long_token");
+				arm_faults(op, ctx);
 				got = parse_call(s.tok, bytes, z);
+				bool fired = g_alloc.fired > 0;
+				tally_faults(ctx);
+				disarm_faults();
 				ctx.count("steps.chunk_deliveries");
-				check_outcome(ctx, got, z ? (long)bytes.size() + 1 : len, "parse_ex");
+				check_outcome(ctx, got, z ? (long)bytes.size() + 1 : len, "parse_ex", fired);
+				if (fired)
+				{
+					ctx.probe("fault.alloc_inside_parse");
+					if (got.err == json_tokener_error_memory || (!got.has_value && got.err != json_tokener_success && got.err != json_tokener_continue))
+						ctx.probe("outcome.memory_error_then_reset");
+				}
 				s.since_reset += bytes;
 				if (z)
 					s.since_reset.push_back('\0');
@@ -342,7 +361,10 @@ struct C04 : Property
 				{
 					mir = parse_call(s.mirror, bytes, z);
 					ctx.probe("mirror.compared_calls");
-					if (!(mir == got))
+					bool failed_by_fault = fired && !got.has_value && got.err != json_tokener_success && got.err != json_tokener_continue;
+					// an allocation failure may turn the call into a clean failure (the parser is then reset before its next use);
+					// if the call survived the failure it must have done exactly what the unfaulted mirror did
+					if (!(mir == got) && !failed_by_fault)
 						ctx.fail("C04:reset-parser-differs-from-new", "after reset (depth=%d flags=0x%x) feeding %s: reset parser -> %s ; brand-new parser with the same history -> %s", s.depth,
 						         s.flags, printable(bytes, 60).c_str(), got.str().c_str(), mir.str().c_str());
 				}
@@ -367,7 +389,7 @@ struct C04 : Property
 		}
 		drop_mirror(s);
 		if (!g_alloc.live.empty())
-			ctx.fail("C04:leak@" + g_alloc.site_of(g_alloc.live.begin()->second), "after json_tokener_free %zu allocation(s) made by the session remain:%s", g_alloc.live.size(),
+			ctx.fail("C04:leak@" + g_alloc.first_live_site(), "after json_tokener_free %zu allocation(s) made by the session remain:%s", g_alloc.live.size(),
 			         g_alloc.describe_live().c_str());
 	}
 };
